@@ -29,6 +29,7 @@ RULE = (
     " Further parts: `larger_programs`; `large_inputs` (2-5 rows, 7e4..2.4e6 columns in 2-3 inputs) and `many_rows` (70..1030 rows) with "
     "a closed-form Jacobian of y = tanh(sum_b A_b w_b); a sixth of the explicit-input cases lists a LEAF among `tensors`; a third "
     "passes the raw aggregator, half of those with a user forward hook or as a user subclass overriding forward()."
+    " Raw-aggregator variant `learnable`: Constant / UPGrad / DualProj built on a tensor that requires grad. A third of the pre-existing .grad are non-contiguous (a lane of a wider buffer, or column-major)."
 )
 ASSUMPTIONS = [
     "the NumPy dual-number oracle (validated against plain torch.autograd by tools/selfcheck_programs.py)",
